@@ -96,7 +96,7 @@ def gen_case(rnd, tier, index):
     if workload == 'cycle':
         base = c06.gen_case_b(rnd, tier)
         spec = base['spec']
-        cfg.update({k: base['cfg'][k] for k in ('n', 'rows', 'b', 'iter', 'extra')})
+        cfg.update({k: base['cfg'][k] for k in ('n', 'rows', 'b', 'iter', 'extra', 'cse_q') if k in base['cfg']})
         cfg['iter'] = [200, 10 ** rnd.uniform(-6, -3)]
         spec['iter'] = cfg['iter']
         # PROBE is not needed here: plain formulas
@@ -138,6 +138,7 @@ def gen_case(rnd, tier, index):
     formula_text = index % 25 == 7
     cfg['formula_text'] = formula_text
     cfg['faults'] = rnd.random() < 0.25
+    cfg['touch_source'] = cfg.get('origin') == 'xlsx' and rnd.random() < 0.5
     consts = [a for a in dag.constants() if a not in spec.get('pinned', ())]
     cur = {}
 
@@ -196,6 +197,10 @@ def gen_case(rnd, tier, index):
                 kind = rnd.choice(('write-fails', 'torn-write', 'torn-write', 'open-fails',
                                    'unlink-fails'))
                 op['fault'] = {'kind': kind, 'at': rnd.choice((1, 1, 2, 3, 5, 10, 40))}
+                if 'pkl' in op['types'] and kind in ('write-fails', 'torn-write') and \
+                        rnd.random() < 0.6:
+                    # aimed at the pickle (written with very few writes, after the text)
+                    op['fault'].update(file='.pkl', at=rnd.choice((1, 1, 2)))
             ops.append(op)
             if rnd.random() < 0.3 and 'fault' not in op:
                 ops.append({'op': 'resave-same', 'name': op['name'], 'types': op['types'],
@@ -325,8 +330,19 @@ def run_case(case):
     def body(tmp):
         driver = Driver(tmp, inline=True)
         count('origin:' + cfg.get('origin', 'nodata'))
+        source_md5 = None
         if cfg.get('origin') == 'xlsx':
             driver.build_xlsx(spec, stored)
+            if not driver.downgraded:
+                import hashlib as _h
+                src = os.path.join(tmp, 'book.xlsx')
+                with open(src, 'rb') as f:
+                    source_md5 = _h.md5(f.read()).hexdigest()
+                if cfg.get('touch_source'):
+                    # the workbook changes on disk after it was compiled
+                    with open(src, 'ab') as f:
+                        f.write(b'\n')
+                    count('probe:source-workbook-changed-after-compile')
         else:
             driver.build_nodata(spec)
         model = driver.model
@@ -541,6 +557,14 @@ def run_case(case):
                     if state['violation']:
                         break
                     # attributes
+                    if source_md5 is not None:
+                        count('probe:source-hash-checked-against-the-compiled-file')
+                        if loaded_attrs['hash'] != source_md5:
+                            violate('attribute-lost', i, op, {'hash': source_md5},
+                                    {'hash': loaded_attrs['hash']}, attr='hash-of-compiled-workbook')
+                        elif cfg.get('touch_source') and loaded_attrs['hash_matches']:
+                            violate('attribute-lost', i, op, {'hash_matches': False},
+                                    {'hash_matches': True}, attr='hash_matches-after-source-changed')
                     for key in ('cycles', 'filename', 'hash', 'hash_matches'):
                         if orig_attrs[key] != loaded_attrs[key]:
                             violate('attribute-lost', i, op, {key: orig_attrs[key]},
